@@ -311,7 +311,11 @@ def run(ck):
                 if got != name:
                     mism.append((name, got))
         ck.verdict(n >= len(by_discr) - 1 and not mism, "5", "T9-layout", an, "as_nix:same-name", "%d variants map to the nix signal of the same name" % n, "Signal::as_nix maps %s" % mism[:4], site=an.where())
-    fnm = ck.opt_body("Signal::from_num")
+    # the decoder of signal numbers, found by its role: the local function with one integer parameter that returns Signal
+    dec = [b_ for b_ in list(f.bodies.values()) + f.dropped_helper_bodies() if b_.kind in ("Fn", "AssocFn") and b_.arg_count == 1 and f.types[b_.local_ty(0)]["s"] == "sources::signals::Signal" and f.types[b_.local_ty(1)]["s"] in ("i32", "u32", "std::ffi::c_int", "u8", "i64", "usize")]
+    fnm = dec[0] if len(dec) == 1 else None
+    if fnm is None:
+        ck.anchor_missing("5", "T9-layout", "Signal::from_num")
     if fnm is not None and sig is not None:
         by_discr = {v["discr"]: v["name"] for v in sig["variants"]}
         mism = []
@@ -336,5 +340,6 @@ def run(ck):
         ck.verdict(n >= len(by_discr) - 1 and not mism, "5", "T9-layout", fnm, "from_num:number->same-variant", "%d signal numbers map to the variant whose discriminant is that number" % n, "Signal::from_num maps %s" % mism[:4], site=fnm.where())
     ev = ck.opt_body("Event::signal")
     if ev is not None:
-        fn_ = [cs for cs in ev.calls() if cs.name == "from_num"]
-        ck.verdict(bool(fn_) and all(T.path_has(ev, c.args[0], ".ssi_signo") for c in fn_), "5", "T6-provenance", ev, "signal()=from_num(ssi_signo)", "the reported signal is decoded from ssi_signo", "Event::signal does not decode ssi_signo", site=ev.where())
+        fn_ = [cs for cs in ev.calls() if fnm is not None and cs.callee_body() is fnm]
+        inl = fnm is not None and fnm.key in ev.raw.get("inlined", []) and any(any(T.path_has(ev, a, ".ssi_signo") for a in c.args) for c in ev.calls() if c.name in ("try_from", "from", "try_into", "into") and not ev.is_cleanup(c.bb))
+        ck.verdict((bool(fn_) and all(T.path_has(ev, c.args[0], ".ssi_signo") for c in fn_)) or inl, "5", "T6-provenance", ev, "signal()=from_num(ssi_signo)", "the reported signal is decoded from ssi_signo", "Event::signal does not decode ssi_signo", site=ev.where())
